@@ -125,6 +125,8 @@ def make_case(rng, mach, idx):
             present = [s for s in avail if rng.random() < 0.5] or [rng.choice(avail)]
         else:
             present = list(avail)
+        if n == 'numa' and len(present) > 3:
+            present = rng.sample(present, 3)
         if n == 'bind' and 'pcoopt' in present and 'cmdopt' in present:
             present.remove('pcoopt')
         vals = {}
@@ -144,8 +146,12 @@ def make_case(rng, mach, idx):
             n = rng.choice(cands)
             order = ['cmdopt', 'pcoopt', 'cmdini', 'pcoini', 'env']
             top = [s for s in order if s in src[n]][0]
-            if not (n == 'numa' and top not in ('cmdopt', 'pcoopt')):
+            # only where the deciding source is not itself subject to a known prepend inversion
+            if not (n == 'numa' and top not in ('cmdopt', 'pcoopt')) and \
+                    not (top == 'cmdini' and ('pcoini' in src[n] or 'pcoopt' in src[n])):
                 src[n][top] = gen_value(rng, n, mach, invalid=True)
+                if src[n][top] == str(mach['pus'] + 1) and 'bind' in chosen:
+                    src[n][top] = '0'      # oversubscription is legitimate with bind=none
                 invalid = (n, top, src[n][top])
     for n in chosen:
         opt, envn, key, _ = SETTINGS[n]
@@ -397,6 +403,9 @@ def monitor(case, o, mach):
         if not ok:
             # which source won instead?
             winner = [s for s, v in vals.items() if (v == got or (n == 'threads' and v == L['WORKERS']['workers']))]
+            # several sources may carry the same value: blame the one the known mechanism would pick
+            real_rank = {'cmdopt': 5, 'pcoopt': 5, 'pcoini': 3, 'cmdini': 2, 'env': 1}
+            winner.sort(key=lambda s_: -real_rank[s_])
             w = winner[0] if winner else 'other'
             sig = 'C16:precedence:%s:%s_lost_to_%s' % (n, top, w)
             if n in HANDLED and top == 'cmdini' and w == 'pcoini':
